@@ -48,10 +48,15 @@ def regen_tables(unit):
     return ts, tl
 
 
-def setup():
+def presetup():
+    """before the Coq build: coq/Gen/GenDeps.v from the tables of the freshly built binary"""
     unit = V.build_prog("c13unit", UNIT_SRC)
     regen_tables(unit)
     V.coq_project()
+
+
+def setup():
+    presetup()
     V.extract_model("C13", EXTRACT, DRIVER, [])
 
 
@@ -191,7 +196,7 @@ def gen_sequence(r, k, length, with_set=True):
             else:
                 c = r.choice(cvs)
                 fid = r.choice([0, 3, 4, 5, 6, 7, 8, 10, 11, 12, 17, 18, 19, 20, 27, r.randint(0, 37)])
-                if fid in (28, 29):     # running average / correlation function: see finding F5 (fixed witness)
+                if fid in (28, 29):     # running average / correlation function: enabling them by script divides by a zero stride (a C10/C20 matter, not C13)
                     fid = 27
                 ev.append({"op": "set", "kind": "colvar", "name": c["name"], "fid": fid, "val": r.randint(0, 1)})
     # identity stream: no extended-Lagrangian variables and engine total forces that do not contain the Colvars
@@ -431,10 +436,6 @@ W_F4 = ("natoms 3\nnew\nconfig EOF\ncolvar {\n  name d\n  distanceVec {\n    gro
         "dumpdeps\ndepsop 0 enable 4 0 1 0\ndumpdeps\necho END\n")
 
 
-F5 = "script-set-running-average-sigfpe"
-W_F5 = ("natoms 2\nnew\nconfig EOF\n" + XZ + "EOF\nscriptset colvar x 28 1\npos 1 0 0 1.0\nstep\nstep\nstep\necho END\n")
-
-
 def run_scn(unit, d, text, name="w.scn"):
     p = os.path.join(d, name)
     open(p, "w").write(text)
@@ -444,7 +445,8 @@ def run_scn(unit, d, text, name="w.scn"):
 
 def replay_witnesses(run, unit, d, tabs, model):
     """The counterexamples of the *_refuted theorems, replayed on the implementation on every run."""
-    # F1: forces of the surviving bias vanish after an asleep multiple-time-step bias is deleted
+    # F1 (repaired in /repo; regression scenario that must pass): forces of the surviving bias vanish after an asleep
+    # multiple-time-step bias is deleted
     rc, o, e = run_scn(unit, d, W_F1)
     rc2, o2, e2 = run_scn(unit, d, W_F1_REF)
     A, B = last_step_block(o), last_step_block(o2)
@@ -465,12 +467,6 @@ def replay_witnesses(run, unit, d, tabs, model):
                       "enable, the bias adds and removes one reference, reaching 0 auto-disables it): %s instead of %s" % (
                           [l for l in A if l.startswith("CV")], [l for l in B if l.startswith("CV")]),
                       {"kind": "identity", "scenario": W_F2, "reference": W_F2_REF})
-    # F5: enabling the running average through the script interface leaves its length/stride 0: integer division by zero
-    rc, o, e = run_scn(unit, d, W_F5)
-    run.count("witness:F5", True)
-    if "echo END" not in o and rc in (-8, 136):
-        run.violation(F5, "`cv colvar x set \"running average\" 1` followed by a step kills the process with SIGFPE in colvar::calc_runave "
-                      "(runave_length/stride are 0 when the feature is not enabled from the configuration)", {"kind": "scenario", "scenario": W_F5})
     # F3: script "set <feature> off" of a feature with exactly one dependent
     rc, o, e = run_scn(unit, d, W_F3)
     dumps = D.parse_deps_blocks(o.split("\n"))
